@@ -31,7 +31,7 @@ PT_TOL = 1e-9
 
 def floors(tier):
     return {"judged": 3000, "partition_none_free": 50, "partition_some_free": 1000, "partition_all_free": 300,
-            "binding_truncation": 300, "intercepted_calls": 300, "inputs_with_idle_free_variables": 300, "restarted_runs": 20, "restarted_runs_with_gradient_scaler": 8, "runs_with_callback_editing_the_state_pairs": 20, "descent_checked": 2000, "__nontrivial__": 250}
+            "binding_truncation": 300, "intercepted_calls": 300, "inputs_with_idle_free_variables": 300, "inputs_in_tiny_length_units_with_memory": 150, "restarted_runs": 20, "restarted_runs_with_gradient_scaler": 8, "runs_with_callback_editing_the_state_pairs": 20, "runs_with_optimisation_nested_in_the_callback": 20, "descent_checked": 2000, "__nontrivial__": 250}
 
 
 def judge_subspace(out, x, xc, g, lb, ub, B, xbar, where, tags, mats=None):
@@ -175,7 +175,7 @@ def cases(tier, seed):
                "eps_SY": float(gen.pick(rng, [2.2e-16, 2.2e-16, 1e-3, 1e-2, 0.1])),
                "restart_after": int(rng.integers(2, 8)) if i % 3 == 1 else 0,
                "restart_scaler": float(np.exp(rng.uniform(np.log(1e-3), np.log(1e2)))) if i % 2 == 1 else None,
-               "cb_edits_pairs": bool(i % 4 == 2)}
+               "cb_edits_pairs": bool(i % 4 == 2), "cb_nested": bool(i % 4 == 0)}
     del itertools
 
 
@@ -227,7 +227,8 @@ def run(spec):
                     if rng.random() < 0.6:
                         idle[0] = 0
                         idle = np.unique(idle)
-                mm = make_memory(rng, n, npairs, convex=bool(rng.random() < 0.7), idle=idle)
+                xunit = float(gen.pick(rng, [1e-10, 1e-12, 1e-9])) if (j % 7 == 3 and idle is None) else 1.0
+                mm = make_memory(rng, n, npairs, convex=bool(rng.random() < 0.7), idle=idle, xunit=xunit)
                 if mm is None:
                     out.count("skipped_memory_inconsistent")
                     continue
@@ -236,6 +237,11 @@ def run(spec):
                 x = gen.rand_x0(rng, lb, ub, gen.pick(rng, ["interior", "face", "vertex"]))
                 g = rng.standard_normal(n) * np.exp(rng.uniform(-2, 3))
                 g[rng.random(n) < 0.1] = 0.0
+                if xunit != 1.0:
+                    # the whole geometry in those units: box, point and a gradient that moves the point by about one unit per unit step
+                    lb, ub, x, g = lb * xunit, ub * xunit, x * xunit, g * xunit
+                    if npairs > 0:
+                        out.count("inputs_in_tiny_length_units_with_memory")
                 if idle is not None:
                     g[idle] = 0.0
                     for i in idle:  # strictly inside a finite interval
@@ -289,6 +295,17 @@ def run(spec):
 
             cfg = dict(jac="callable", maxcor=spec["maxcor"], maxiter=spec["maxiter"], ftol=0.0, gtol=1e-10, maxfun=3000, eps_SY=spec.get("eps_SY", 2.2e-16))
             hooks = {}
+            if spec.get("cb_nested"):
+                # the callback runs another optimisation of the same dimension on another box before returning False
+                cfg["cb"] = "never"
+                Q = gen.make_problem({"family": "qp", "n": P.n, "seed": int(P.spec["seed"]) + 5, "cond": 20.0, "box": "boxed", "start": "face"})
+                out.count("runs_with_optimisation_nested_in_the_callback")
+
+                def on_cb_nested(i, xk, state):
+                    probes.run_min(Q, dict(jac="callable", maxcor=3, maxiter=3, maxfun=200))
+                    return False
+
+                hooks["on_cb"] = on_cb_nested
             if spec.get("cb_edits_pairs"):
                 # a callback that converts the correction pairs of the state it is handed to other units, in place (the state is the
                 # user's to keep: whatever it holds must not be the solver's working storage)
